@@ -33,7 +33,7 @@ type peerBehaviour struct {
 
 var peerKinds = []string{
 	"status", "status", "status", "status", "status-close", "close-no-response", "reset-no-response", "partial-headers-close", "partial-headers-reset",
-	"short-body-close", "short-body-reset", "garbage", "bad-chunk", "hang-no-response", "huge-body", "huge-headers", "continue-then-200", "http10-close-delimited",
+	"short-body-close", "short-body-reset", "absurd-content-length", "garbage", "bad-chunk", "hang-no-response", "huge-body", "huge-headers", "continue-then-200", "http10-close-delimited",
 	"bad-version", "negative-content-length", "status-999", "no-reason-phrase", "empty-reply-crlf", "stall-then-200", "chunked-ok", "head-like-no-body-204", "status-304-with-length",
 }
 
@@ -77,7 +77,7 @@ func genPeerBehaviour(f *simrt.Stream, faults bool) peerBehaviour {
 		b.Status, b.Body = 200, 0
 	case "partial-headers-close", "partial-headers-reset", "garbage", "negative-content-length":
 		b.GotResponse, b.BodyOK = false, false
-	case "short-body-close", "short-body-reset", "bad-chunk":
+	case "short-body-close", "short-body-reset", "bad-chunk", "absurd-content-length":
 		b.Status, b.GotResponse, b.BodyOK = 200, true, false
 	case "hang-no-response":
 		b.GotResponse, b.BodyOK, b.Timeout = false, false, true
@@ -109,6 +109,9 @@ func (b peerBehaviour) action() rawAction {
 		return rawAction{Bytes: []byte("HTTP/1.1 200 OK\r\nContent-Le"), Then: "reset"}
 	case "short-body-close":
 		return rawAction{Bytes: []byte("HTTP/1.1 200 OK\r\nContent-Length: 100\r\n\r\n0123456789"), Then: "close"}
+	case "absurd-content-length":
+		// (a length the header parser accepts and no machine can hold, then ten bytes and a close)
+		return rawAction{Bytes: []byte("HTTP/1.1 200 OK\r\nContent-Length: 4611686018427387904\r\n\r\n0123456789"), Then: "close"}
 	case "short-body-reset":
 		return rawAction{Bytes: []byte("HTTP/1.1 200 OK\r\nContent-Length: 100\r\n\r\n0123456789"), Then: "reset"}
 	case "garbage":
